@@ -63,7 +63,7 @@ def binop(a0: bool, a1: bool, a2: bool, a3: bool, a4: bool, b0: bool, b1: bool, 
     return isinstance(pt, Type) and bool(is_subtype(get_pedal_type_from_value(result), pt))
 
 
-GLUE_VALUES = [-1, 2, 1.5, "a", [1], (1, 2), [], ()]
+GLUE_VALUES = [-1, 2, 1.5, "a", [1], (1, 2), -2.5, ()]
 
 
 def tifa_glue(a0: bool, a1: bool, a2: bool, b0: bool, b1: bool, b2: bool) -> bool:
@@ -227,14 +227,14 @@ def numeric_twins(v: int, float_first: bool) -> bool:
     return ok and isinstance(shift, ImpossibleType) and isinstance(repeat, ImpossibleType)
 
 
-TREE_VALUES = [2, -1, 1.5, "a", [1], (1, 2)]
+TREE_VALUES = [2, -1, 1.5, "a", [1], (1, 2), -2.5, (1, "a")]
 
 
 def tifa_tree(a0: bool, a1: bool, a2: bool, b0: bool, b1: bool, b2: bool, c0: bool, c1: bool, c2: bool,
-              o0: bool, o1: bool, o2: bool, o3: bool, left_nested: bool) -> bool:
+              o0: bool, o1: bool, o2: bool, o3: bool) -> bool:
     """
-    Depth-2 expression trees through the real analysis: `z = (x op1 y) op2 w` or `z = x op2 (y op1 w)` with op1 = partition,
-    op2 from the 12 binary operators, operands from a 6-value menu (all concrete on the path; the body runs untraced).
+    Depth-2 expression trees through the real analysis: `z = (x op1 y) op2 w` or `z = x op2 (y op1 w)` with (op1, which side is nested) =
+    partition, op2 from the 12 binary operators, operands from an 8-value menu (incl. a signed float literal and a mixed tuple) (all concrete on the path; the body runs untraced).
     CPython TypeError anywhere in the tree => an incompatible_types issue; otherwise the type of z admits the real value.
 
     pre: True
@@ -243,9 +243,9 @@ def tifa_tree(a0: bool, a1: bool, a2: bool, b0: bool, b1: bool, b2: bool, c0: bo
     if tick():
         return True
     ia, ib, ic, k2 = bits(a0, a1, a2), bits(b0, b1, b2), bits(c0, c1, c2), bits(o0, o1, o2, o3)
-    if ia >= 6 or ib >= 6 or ic >= 6 or k2 >= 12:
+    if k2 >= 12:
         return True
-    k1 = int(PART) if PART else 0
+    k1, left_nested = (int(PART.split(",")[0]), PART.split(",")[1] == "L") if PART else (0, True)
     with NoTracing():
         return _tree_cell(BINOPS[k1], BINOPS[k2], TREE_VALUES[ia], TREE_VALUES[ib], TREE_VALUES[ic], left_nested)
 
@@ -264,8 +264,11 @@ def _tree_cell(op1, op2, a, b, c, left_nested):
             _vd(s2, inner, c) if left_nested else _vd(s2, a, inner))
     except Exception:
         pow_value_dependent = False
+    # (int * tuple) + tuple: the repetition keeps the operand's element types, the recorded known finding
+    repeat_then_concat = (left_nested and s1 == "*" and s2 == "+" and isinstance(c, tuple) and (
+        (type(a) is int and isinstance(b, tuple)) or (type(b) is int and isinstance(a, tuple))))
     if excluded("C19.tifa_tree", s1=s1, s2=s2, a=a, b=b, c=c, left_nested=left_nested,
-                pow_value_dependent=pow_value_dependent):
+                pow_value_dependent=pow_value_dependent, repeat_then_concat=repeat_then_concat):
         return True
     raised_type_error, has_result, result = False, False, None
     try:
